@@ -250,6 +250,26 @@ def r7_once(ctx):
            "notify_synack does not resolve the one-shot through take() under the slot's lock: an open can be completed twice or not at all")
 
 
+def r7b_answers_only_resolve(ctx):
+    """an answer's only effect is to resolve the pending open: whatever arrives after the first answer (a duplicate, a late
+    failure text) finds the slot empty and changes nothing — in particular it does not touch the stream tables"""
+    from .common import effectful_calls
+    from . import C02
+    body = co(ctx, "R10.7", S + "handle_frame")
+    if body is None:
+        return
+    sw, arms = C02.arm_regions(ctx, body)
+    if not arms or "SynAck" not in arms:
+        ctx.missing("R10.7", "SynAck arm of handle_frame")
+        return
+    s_, own, allr = arms["SynAck"]
+    allowed = ("Stream::notify_synack", "RwLock::read", "HashMap::get", "IntoFuture>::into_future", "future::get_context", "Pin::new_unchecked", "Option::cloned", "Clone>::clone", "mem::drop")
+    eff = [c for c in effectful_calls(body, own) if not (c.norm or "").split("::{closure")[0].endswith(allowed)]
+    ctx.ob("R10.7", "SynAck-arm:only-resolves-the-pending-open", not eff, eff[0].site if eff else "", "the arm looks the stream up and calls notify_synack, nothing else" if not eff else
+           "the SynAck arm also calls `%s`: its effect is not conditional on this answer being the first one, so a duplicated or late answer changes the state of a stream whose open was already reported "
+           "(e.g. a failure text arriving after success drops the connected stream's inbound queue)" % eff[0].norm.split("::")[-1])
+
+
 def r8_version_independent_of_padding(ctx):
     """the server records the peer's protocol version (which decides whether it ever answers opens) and sends ServerSettings
     whatever the outcome of the padding-md5 comparison"""
@@ -303,3 +323,6 @@ def run(ctx):
     C09.r4_close_body(ctx)   # R10.5 = R09.4
     r6_front_ends(ctx)
     r7_once(ctx)
+    r7b_answers_only_resolve(ctx)
+    from . import C07
+    C07.r5_domain_len(ctx)    # the destination the verdict is about is the one that was requested: an over-long name is refused, not truncated into another host
